@@ -18,6 +18,7 @@ import (
 	revresult "github.com/notaryproject/notation-core-go/revocation/result"
 	"github.com/notaryproject/notation-core-go/signature"
 	"github.com/notaryproject/notation-go"
+	"github.com/notaryproject/notation-go/plugin"
 	"github.com/notaryproject/notation-go/verifier"
 	"github.com/notaryproject/notation-go/verifier/trustpolicy"
 	"github.com/notaryproject/notation-go/verifier/truststore"
@@ -265,7 +266,27 @@ func buildAndVerify(vc vcase) VObs {
 	} else {
 		opts.RevocationCodeSigningValidator = ctxValidator{fx.rev}
 	}
-	v, err := verifier.NewVerifierWithOptions(fx.store, opts)
+	var v interface {
+		Verify(ctx context.Context, desc ocispec.Descriptor, signature []byte, opts notation.VerifierVerifyOptions) (*notation.VerificationOutcome, error)
+	}
+	var bv notation.BlobVerifier
+	var err error
+	if in.API == "Verify" && blobDoc == nil && ociDoc != nil && (vc.sigMut+vc.capOrd)%2 == 1 {
+		// the deprecated constructor must honour the same options
+		var pm plugin.Manager
+		if fx.manager != nil {
+			pm = fx.manager
+		}
+		dopts := opts
+		dopts.OCITrustPolicy, dopts.PluginManager = nil, nil
+		v, err = verifier.NewWithOptions(ociDoc, fx.store, pm, dopts)
+	} else {
+		nv, nerr := verifier.NewVerifierWithOptions(fx.store, opts)
+		if nerr == nil {
+			v, bv = nv, nv
+		}
+		err = nerr
+	}
 	if err != nil && in.DN != nil {
 		// an identity list the model considers valid was refused at construction: nothing is verified (closed)
 		obs.Verdict, obs.Out, obs.ErrText = "fail", "nil", "construction refused: "+err.Error()
@@ -294,7 +315,7 @@ func buildAndVerify(vc vcase) VObs {
 				}
 				return fx.presentedDesc(alg), nil
 			}
-			outcome, verr = v.VerifyBlob(ctx, gen, env, notation.BlobVerifierVerifyOptions{
+			outcome, verr = bv.VerifyBlob(ctx, gen, env, notation.BlobVerifierVerifyOptions{
 				SignatureMediaType: mt, UserMetadata: required, TrustPolicyName: blobName})
 		}
 	})
@@ -407,6 +428,9 @@ type vfixture struct {
 }
 
 const critAttrKey = "io.verif.example/criticalAttr"
+
+// critical attribute keys: an unrelated one and ones that merely start like the plugin headers
+var critAttrKeys = []string{critAttrKey, "io.cncf.notary.verificationPluginConfig", "io.cncf.notary.verificationPlugin.extra", "io.cncf.notary.verificationPluginMinVersionX"}
 const pluginName = "verifplug"
 
 func caStoreType(s signature.SigningScheme) truststore.Type {
@@ -551,11 +575,11 @@ func newVFixture(in VIn, scheme signature.SigningScheme, vc vcase) *vfixture {
 			panic("unknown plugin situation " + in.Plugin)
 		}
 		if in.Crit == "processed" {
-			p.processed = []string{critAttrKey}
+			p.processed = []string{critAttrKeys[vc.sigMut%len(critAttrKeys)]}
 		}
 	}
 	if in.Crit != "none" && in.Crit != "" {
-		fx.extAttrs = append(fx.extAttrs, signature.Attribute{Key: critAttrKey, Critical: true, Value: "must-understand"})
+		fx.extAttrs = append(fx.extAttrs, signature.Attribute{Key: critAttrKeys[vc.sigMut%len(critAttrKeys)], Critical: true, Value: "must-understand"})
 	}
 	return fx
 }
@@ -591,6 +615,9 @@ func (fx *vfixture) payload() []byte {
 		return []byte(`{"targetArtifact":"not-a-descriptor"}`)
 	}
 	d := ocispec.Descriptor{MediaType: mtA, Digest: digestOf(fx.hashAlg, blobA), Size: int64(len(blobA))}
+	if fx.in.Desc.MT == "unsigned" {
+		d.MediaType = "" // the signed payload carries no media type
+	}
 	if ann := metaMap(fx.in.Signed); len(ann) > 0 {
 		d.Annotations = ann
 	}
@@ -612,7 +639,7 @@ func (fx *vfixture) presentedDesc(alg digest.Algorithm) ocispec.Descriptor {
 		d.Size = int64(len(blobC))
 	}
 	switch f.MT {
-	case "same":
+	case "same", "unsigned":
 		d.MediaType = mtA
 	case "other":
 		d.MediaType = mtB
